@@ -270,6 +270,14 @@ func c16(r *vc.Run) int {
 		defer org.close()
 		s1 := c16Site(org, r.Seed, i, p.n, 11)
 		s2 := c16Site(org, r.Seed, i, 3*p.n, 20)
+		// a share of the queue rows is outside the operator's scope (archive.org is always excluded):
+		// such seeds are finished without a fetch and must leave the reactor like any other
+		for k := 0; k <= p.n/6; k++ {
+			s1 = append(s1, fmt.Sprintf("http://archive.org/details/n-%d-%d", i, k))
+		}
+		for k := 0; k <= p.n/2; k++ {
+			s2 = append(s2, fmt.Sprintf("http://web.archive.org/web/2020/x-%d-%d", i, k))
+		}
 		hubHost := hostOf(10, 1, org.Port)
 		org.set(hubHost, "/h1.html", &route{Status: 200, Headers: map[string]string{"Content-Type": "text/html"}, Body: htmlPage("h1", nil, s1), Tag: "hub"})
 		org.set(hubHost, "/h2.html", &route{Status: 200, Headers: map[string]string{"Content-Type": "text/html"}, Body: htmlPage("h2", nil, s2), Tag: "hub"})
@@ -296,6 +304,16 @@ func c16(r *vc.Run) int {
 			return
 		}
 		evaluations.Add(1)
+		// "stuck" = no hook event and no open origin request for 14 s (three samples) while the reactor
+		// still tracks seeds: the queue has drained and the reactor is not idle - the statement's first clause
+		for name, ph := range map[string]struct {
+			v string
+			f footprint
+		}{"N": {out.V1, out.A}, "4N": {out.V2, out.B}} {
+			if ph.v == "stuck" && ph.f.Stable && (ph.f.Tracked != 0 || ph.f.Tokens != 0) {
+				r.Violation("reactor-not-idle", fmt.Sprintf("%s: the pipeline went quiet after %s seeds with %d tracked seeds and %d tokens in use", label, name, ph.f.Tracked, ph.f.Tokens), map[string]any{"plan": fmt.Sprintf("%+v", p), "footprint": ph.f})
+			}
+		}
 		if out.V1 != "quiescent" || out.V2 != "quiescent" || !out.A.Stable || !out.B.Stable {
 			r.Inconclusive("not-quiescent-or-unstable")
 			r.Note("%s: verdicts %s/%s stable %v/%v", label, out.V1, out.V2, out.A.Stable, out.B.Stable)
